@@ -132,10 +132,36 @@ def extract(repo: Path) -> dict:
     # ---- (round 6) the second look at every href of converted text: does it read a *relative* reference from the
     #      working directory of the process?
     out["treeProcessorReadsRelative"] = _probe_tree_processor()
+    out["findSkips"] = _probe_find_skips(xp, fp)
     for (n, caught), (n2, ex) in zip(out["fetchErrors"], out["handlerExits"]):
         if n != n2 or caught != (ex != "uncaught"):
             raise LookupError(f"load_external_modules: {n} caught={caught} but handler exit {ex!r}")
     return out
+
+
+# --------------------------------------------------------------------------- probing Project.find (round 6)
+
+def _probe_find_skips(xp, fp):
+    """which classes of ENTITIES `Project.find` never returns for a bare name: one object per class, alone in the list
+    its class belongs to, on a project that has nothing else"""
+    lt = fp.LINK_TYPES
+    skips = []
+    for k, cls in xp.ENTITIES.items():
+        stub = type("P", (), {})()
+        for c in set(lt.values()) | set(EXT_LISTS):
+            setattr(stub, c, [])
+        o = _make(cls, "zz_probe", "u")
+        getattr(stub, cls._project_list).append(o)
+        try:
+            r = fp.Project.find(stub, "ZZ_Probe")
+        except Exception as e:
+            raise LookupError(f"Project.find cannot be probed ({type(e).__name__}: {e})")
+        if r is None:
+            if cls._project_list in lt.values():
+                skips.append(k)
+        elif r is not o:
+            raise LookupError("Project.find returns something that was not put in")
+    return skips
 
 
 # --------------------------------------------------------------------------- probing the relative-links tree processor
@@ -690,6 +716,9 @@ def render(t: dict) -> str:
         "/-- `graphs.BaseNode.__init__`: the node's URL is used as it is when this holds, otherwise it is prefixed with",
         f"    `graph_data.parent_dir` ({t['nodeVerbatimSource']}) -/",
         f"def nodeVerbatim : NodeCond := {_lean_cond(t['nodeVerbatim'])}",
+        "/-- (round 6) the keys of ENTITIES whose objects `Project.find` passes over when it looks for a bare name although",
+        "    their project list is searched (probed: one object per class on an otherwise empty project) -/",
+        "def findSkips : List Str := [" + ", ".join(f"{_lean_str(k)} /- {k} -/" for k in t["findSkips"]) + "]",
         "/-- (round 6) `RelativeLinksTreeProcessor._fix_attrib`: is a relative `href` read as a path from the working",
         "    directory of the process (probed; `false` with fixes/C16-relative-links-only-absolute-paths.diff) -/",
         f"def treeProcessorReadsRelative : Bool := {'true' if t['treeProcessorReadsRelative'] else 'false'}",
